@@ -13,6 +13,7 @@
 
 #include "muduo/base/noncopyable.h"
 #include "muduo/net/InetAddress.h"
+#include "muduo/net/TimerId.h"
 
 #include <atomic>
 #include <functional>
@@ -53,6 +54,7 @@ class Connector : noncopyable,
   void startCycleInLoop();
   void startInLoop();
   void stopInLoop();
+  void cancelRetryTimer();
   void connect();
   void connecting(int sockfd);
   void handleWrite();
@@ -68,6 +70,7 @@ class Connector : noncopyable,
   std::unique_ptr<Channel> channel_;
   NewConnectionCallback newConnectionCallback_;
   int retryDelayMs_;
+  TimerId retryTimer_;  // the pending back-off timer of this cycle, if any
 };
 
 }  // namespace net
